@@ -10,7 +10,7 @@ CONSTANTS
   MaxInject = 1
   InjectKinds <- InjBad
   Senders <- OnlyA
-  Stoppers <- NoSide
+  Stoppers <- OnlyA
 INIT Init
 NEXT Next
 INVARIANTS TypeOK PerChannelFIFOExactlyOnce NoPartialDelivery CompleteAtCleanClose
